@@ -8,7 +8,7 @@ import LettreVerif.Proofs.Peg
 the header's Display text); `Builder.specRun` is the typed store the property talks about.
 Proved here: the refinement `builder_refines_spec` — for every sequence of builder calls, the text store gives
 exactly what the typed store demands (same error, or same envelope and same Bcc decision; never a panic),
-provided the addresses involved survive Display followed by parsing (`EmailsRoundTrip`: the part of C17's
+provided the addresses involved survive Display followed by parsing (`EmailsRoundTrip`, proved in `Proofs/Peg.lean` for dot-atom / quoted local parts and dot-atom / literal domains: the part of C17's
 mailbox round trip that concerns addresses; it is evaluated on every generated mailbox and list by the
 correspondence check, and it is exactly what failed for quoted local parts, address literals and NUL /
 CR / LF names before the `fix:` commits) — and what the specification demands, stated outright.
@@ -100,16 +100,17 @@ theorem builder_refines_spec (e : Address.Env) (G : List Char → Prop) (hrt : E
     (hg : ∀ op ∈ prog, GoodOp G op) : run e prog = conv (specRun prog) :=
   run_refines e G hrt prog hg
 
-/-- **The refinement, unconditionally for dot-atom addresses.** The hypothesis of `builder_refines_spec` is a theorem
-    (`Proofs/Peg.lean`: the grammar reads back what Display writes, for every name) for the class of addresses
-    `local@domain` with both sides dot-atoms: for every program over such addresses — any names, any order of calls —
-    the builder yields exactly the specified envelope, Bcc decision or error.  Addresses with a quoted local part or a
-    domain literal are outside this theorem and are covered by the correspondence check only. -/
-theorem builder_refines_spec_dot_atoms (e : Address.Env) (prog : List Op)
+/-- **The refinement without the hypothesis.** `EmailsRoundTrip` is a theorem (`Proofs/Peg.lean`: the grammar reads back
+    what Display writes, for every name) for the class `GoodAddr` of addresses `local@domain` accepted by `Address::new`
+    whose local part is a dot-atom of the grammar or a quoted string and whose domain is a dot-atom or a bracketed
+    literal: for every program over such addresses — any names, any order of calls — the builder yields exactly the
+    specified envelope, Bcc decision or error.  (Outside the class: only addresses the grammar's character classes do
+    not cover although `Address::new` accepts them, e.g. a local part starting with U+00A0; checked per case.) -/
+theorem builder_refines_spec_unconditional (e : Address.Env) (prog : List Op)
     (hg : ∀ op ∈ prog, GoodOp (LV.PegProof.GoodAddr e) op) : run e prog = conv (specRun prog) :=
   run_refines e _ (LV.PegProof.emails_round_trip e) prog hg
 
-/-- non-vacuity of `builder_refines_spec_dot_atoms`: a program over addresses in the class, with a name that must be
+/-- non-vacuity of `builder_refines_spec_unconditional`: a program over addresses in the class, with a name that must be
     quoted and the same address used twice -/
 example :
     let e : Address.Env := ⟨fun c => Peg.isAlpha c || Peg.isDigit c, fun _ => none, fun _ => false⟩
